@@ -139,14 +139,14 @@ func (t1 *Tasks) Merge(t2 *Tasks, include *Include, includedTaskfileVars *Vars) 
 			// Add namespaces to task dependencies
 			for _, dep := range task.Deps {
 				if dep != nil && dep.Task != "" {
-					dep.Task = taskNameWithNamespace(dep.Task, include.Namespace)
+					dep.Task = taskRefWithNamespace(dep.Task, include.Namespace)
 				}
 			}
 
 			// Add namespaces to task commands
 			for _, cmd := range task.Cmds {
 				if cmd != nil && cmd.Task != "" {
-					cmd.Task = taskNameWithNamespace(cmd.Task, include.Namespace)
+					cmd.Task = taskRefWithNamespace(cmd.Task, include.Namespace)
 				}
 			}
 
@@ -241,6 +241,38 @@ func (t *Tasks) UnmarshalYAML(node *yaml.Node) error {
 	}
 
 	return errors.NewTaskfileDecodeError(nil, node).WithTypeMessage("tasks")
+}
+
+// taskRefWithNamespace adds the namespace to a reference to another task (a
+// dependency or a task call). A reference that starts with ":" names a task of
+// the root Taskfile: it is kept as it is through every merge, however deep the
+// include is nested and whether or not it is flattened, and is resolved by
+// stripRootRefs once the root Taskfile has been assembled.
+func taskRefWithNamespace(taskName string, namespace string) string {
+	if strings.HasPrefix(taskName, NamespaceSeparator) {
+		return taskName
+	}
+	return fmt.Sprintf("%s%s%s", namespace, NamespaceSeparator, taskName)
+}
+
+// stripRootRefs removes the leading ":" of the references that name a task of
+// the root Taskfile. It is called once, on the fully merged root Taskfile.
+func (tasks *Tasks) stripRootRefs() {
+	for task := range tasks.Values(nil) {
+		if task == nil {
+			continue
+		}
+		for _, dep := range task.Deps {
+			if dep != nil {
+				dep.Task = strings.TrimPrefix(dep.Task, NamespaceSeparator)
+			}
+		}
+		for _, cmd := range task.Cmds {
+			if cmd != nil {
+				cmd.Task = strings.TrimPrefix(cmd.Task, NamespaceSeparator)
+			}
+		}
+	}
 }
 
 func taskNameWithNamespace(taskName string, namespace string) string {
